@@ -543,6 +543,10 @@ class TextXVisitor(RRELVisitor):
                 else:
                     # Recursively append all referenced classes.
                     def _add_reffered_classes(rule, inh_by, start=False):
+                        """
+                        Returns True if every way of matching `rule` yields an
+                        object of one of the collected classes.
+                        """
                         if rule.root and not start:
                             _determine_rule_type(rule._tx_class)
                             if rule._tx_class._tx_type != RULE_MATCH:
@@ -552,26 +556,31 @@ class TextXVisitor(RRELVisitor):
                                 return True
                         else:
                             is_ordered_choice = isinstance(rule, OrderedChoice)
-                            inh_added = False
+                            results = []
                             for r in rule.nodes:
                                 if isinstance(r, (Not, And)) or r.suppress:
                                     # Syntactic predicates match nothing and
                                     # suppressed matches are dropped, so what
                                     # they refer to is never the result of
                                     # this rule.
+                                    results.append(False)
                                     continue
                                 added = _add_reffered_classes(r, inh_by)
                                 if isinstance(r, (Optional, ZeroOrMore)):
                                     # May match nothing: what follows can be
                                     # the result as well.
                                     added = False
-                                inh_added |= added
-                                if inh_added and not is_ordered_choice:
+                                results.append(added)
+                                if added and not is_ordered_choice:
                                     # If not ordered choice we should get out
                                     # early as the rest of the rule shouldn't
                                     # influence the inheritance hierarchy.
                                     break
-                            return inh_added
+                            if is_ordered_choice:
+                                # A choice yields an object for sure only if
+                                # each of its alternatives does.
+                                return bool(results) and all(results)
+                            return any(results)
                         return False
 
                     _add_reffered_classes(rule, inh_by, start=True)
